@@ -112,9 +112,9 @@ Definition ids (G : g_schema) : list id :=
   ++ match g_subscription G with Some r => [snd r] | None => [] end
   ++ ids_slice (g_additional G) ++ ids_map ids_dir (g_directives G).
 
-(** the built-in singletons of a graph *)
+(** the built-in singletons of a graph (and what belongs to them) *)
 Definition builtin_ids (G : g_schema) : list id :=
-  flat_map (fun t => match snd t with GScalar s true _ _ _ => [s] | _ => [] end) (g_types G).
+  flat_map (fun t => match snd t with GScalar s true _ r _ => s :: ids_set r | _ => [] end) (g_types G).
 
 (** ** deepCopySchemaDefinition *)
 
